@@ -103,25 +103,30 @@ Section Incr.
         else (tj, s)
     end.
 
-  (* `while (windows[window_index] < t_right)` loop, 1409-1429 *)
-  Fixpoint account (fuel : nat) (ws : list Q) (wi : nat) (t_left t_right rs : Q) (result : list Q)
-    : nat * list Q :=
-    match fuel with
-    | O => (wi, result)
-    | S f =>
-        let w_left := nth wi ws 0 in
-        let w_right := nth (S wi) ws 0 in
-        if Qltb w_left t_right && Nat.ltb (S wi) (length ws) then
+  (* `while (windows[window_index] < t_right)` loop, 1409-1429.  The cursor window_index
+     is rendered as the suffix of the breakpoint list starting at windows[window_index];
+     [cur] is result_row[window_index] accumulated so far.  Returns (finished windows,
+     remaining suffix, partial sum of the window still open). *)
+  Fixpoint account (ws : list Q) (cur : Q) (t_left t_right rs : Q) : list Q * list Q * Q :=
+    match ws with
+    | w_left :: ((w_right :: _) as t) =>
+        if Qltb w_left t_right then
           let scale := Qmin t_right w_right - Qmax t_left w_left in
-          let result' := upd_nat result wi (nth wi result 0 + rs * scale) in
-          if Qle_bool w_right t_right then account f ws (S wi) t_left t_right rs result'
-          else (wi, result')
-        else (wi, result)
+          let cur' := cur + rs * scale in
+          if Qle_bool w_right t_right then
+            let '(out, rest, c) := account t 0 t_left t_right rs in (cur' :: out, rest, c)
+          else ([], ws, cur')
+        else ([], ws, cur)
+    | _ => ([], ws, cur)
     end.
 
-  Fixpoint sweep (fuel : nat) (E : list edge) (I O : list Z) (L : Q) (ws : list Q)
-           (tj tk : Z) (t_left : Q) (wi : nat) (s : bstate) (result : list Q) : option (list Q) :=
-    if negb ((tj <? Z.of_nat (length E))%Z || Qltb t_left L) then Some result else
+  (* one visited tree: interval and the running sum while it is current *)
+  Record trec := mktr { tr_l : Q; tr_r : Q; tr_v : Q }.
+
+  (* the sweep over the trees; returns the visited trees (trace) *)
+  Fixpoint sweep_trace (fuel : nat) (E : list edge) (I O : list Z) (L : Q)
+           (tj tk : Z) (t_left : Q) (s : bstate) : option (list trec) :=
+    if negb ((tj <? Z.of_nat (length E))%Z || Qltb t_left L) then Some [] else
     match fuel with
     | O => None
     | S f =>
@@ -130,15 +135,37 @@ Section Incr.
         let r0 := L in
         let r1 := if (tj' <? Z.of_nat (length E))%Z then Qmin r0 (e_left (eget E (znth I tj' 0%Z))) else r0 in
         let t_right := if (tk' <? Z.of_nat (length E))%Z then Qmin r1 (e_right (eget E (znth O tk' 0%Z))) else r1 in
-        let '(wi', result') := account (S (length ws)) ws wi t_left t_right (b_rs s2) result in
-        sweep f E I O L ws tj' tk' t_right wi' s2 result'
+        match sweep_trace f E I O L tj' tk' t_right s2 with
+        | Some tr => Some (mktr t_left t_right (b_rs s2) :: tr)
+        | None => None
+        end
+    end.
+
+  (* the same sweep with the window accounting done tree by tree, as in the C loop *)
+  Fixpoint sweep (fuel : nat) (E : list edge) (I O : list Z) (L : Q) (ws : list Q) (cur : Q)
+           (tj tk : Z) (t_left : Q) (s : bstate) : option (list Q) :=
+    if negb ((tj <? Z.of_nat (length E))%Z || Qltb t_left L) then Some [] else
+    match fuel with
+    | O => None
+    | S f =>
+        let '(tk', s1) := drain_out (S (length E)) E O tk t_left s in
+        let '(tj', s2) := drain_in (S (length E)) E I tj t_left s1 in
+        let r0 := L in
+        let r1 := if (tj' <? Z.of_nat (length E))%Z then Qmin r0 (e_left (eget E (znth I tj' 0%Z))) else r0 in
+        let t_right := if (tk' <? Z.of_nat (length E))%Z then Qmin r1 (e_right (eget E (znth O tk' 0%Z))) else r1 in
+        let '(out, ws', cur') := account ws cur t_left t_right (b_rs s2) in
+        match sweep f E I O L ws' cur' tj' tk' t_right s2 with
+        | Some r => Some (out ++ r)
+        | None => None
+        end
     end.
 
   (* un-normalised per-window sums; None = fuel exhausted (never on valid tables) *)
   Definition branch_incremental (W : weights) (E : list edge) (I O : list Z) (L : Q) (ws : list Q)
     : option (list Q) :=
-    sweep (2 * length E + 2) E I O L ws 0%Z 0%Z 0 0%nat
-          (init_state (length time) W) (repeat 0 (length ws - 1)).
+    sweep (2 * length E + 2) E I O L ws 0 0%Z 0%Z 0 (init_state (length time) W).
+  Definition branch_trace (W : weights) (E : list edge) (I O : list Z) (L : Q) : option (list trec) :=
+    sweep_trace (2 * length E + 2) E I O L 0%Z 0%Z 0 (init_state (length time) W).
 End Incr.
 
 (* trees.c span_normalise applied to one value per window *)
@@ -153,3 +180,12 @@ Definition check_incremental (r : option (list Q)) (norm : bool) (ws expected : 
   | Some rows => qlist_eqb (if norm then normalise_rows ws rows else rows) expected
   | None => false
   end.
+
+(* the hypothesis of AccountProofs.incremental_window_accounting, checked per run *)
+Fixpoint trec_tiles_b (t : list trec) (lo hi : Q) : bool :=
+  match t with
+  | [] => Qeq_bool lo hi
+  | x :: r => Qeq_bool (tr_l x) lo && Qltb (tr_l x) (tr_r x) && trec_tiles_b r (tr_r x) hi
+  end.
+Definition trace_tiles_b (tr : option (list trec)) (lo hi : Q) : bool :=
+  match tr with Some t => trec_tiles_b t lo hi | None => false end.
